@@ -433,6 +433,12 @@ func c19Keys(res *fw.CaseResult, rng *rand.Rand) {
 	// bucket: a term key must never parse as a document key and vice versa
 	terms := stringPool(rng, 1500)
 	terms = append(terms, "numDocuments", "_numDocuments", "s", "ts", "t", "d", "abcdefg", "1234567", "\x00\x00\x00\x00\x00\x00\x00")
+	// long tokens (the analyser puts no limit on token length): pairs that agree on a long prefix and
+	// differ in their last byte only
+	for _, L := range []int{200, 255, 256, 257, 1023, 4096, 32764, 32765, 32766, 32767, 32768, 32769, 32770, 40000, 65535, 65536, 70001} {
+		base := strings.Repeat("a", L-1)
+		terms = append(terms, base+"a", base+"b", base+"\x00")
+	}
 	termSeen := map[string]string{}
 	for _, t := range terms {
 		if t == "" {
